@@ -3,8 +3,9 @@
     mapped to OCaml's; N, Z, positive, nat stay the extracted datatypes. *)
 Require Extraction.
 Require Import ExtrOcamlBasic.
-Require Import Model.Bytes Model.FieldDef Gen.FieldTable Model.Fields.
+Require Import Model.Bytes Model.FieldDef Gen.FieldTable Model.Fields Model.Spill.
 Extraction Blacklist String List Bytes Char Int.
 Extraction "model.ml"
   Bytes.itoa Bytes.z_of_dec Bytes.atoi
-  Fields.frun Fields.srun Fields.normalize_name Fields.m_write Fields.s_write.
+  Fields.frun Fields.srun Fields.normalize_name Fields.m_write Fields.s_write
+  Spill.b_run Spill.p_run Spill.new_buf.
